@@ -1278,10 +1278,22 @@ namespace chaiscript {
           } else if (catch_block.children.size() == 2 || catch_block.children.size() == 3) {
             const auto name = Arg_List_AST_Node<T>::get_arg_name(*catch_block.children[0]);
 
-            if (dispatch::Param_Types(
-                    std::vector<std::pair<std::string, Type_Info>>{Arg_List_AST_Node<T>::get_arg_type(*catch_block.children[0], t_ss)})
-                    .match(Function_Params{t_except}, t_ss.conversions())
-                    .first) {
+            const dispatch::Param_Types clause_type(
+                std::vector<std::pair<std::string, Type_Info>>{Arg_List_AST_Node<T>::get_arg_type(*catch_block.children[0], t_ss)});
+            const auto [is_match, needs_conversion] = clause_type.match(Function_Params{t_except}, t_ss.conversions());
+            bool accepted = is_match;
+            if (accepted && needs_conversion) {
+              // match() accepts a registered base/derived relation in either direction. A clause
+              // for a derived type only takes the exception if it really is of that type, which
+              // performing the conversion decides.
+              try {
+                (void)clause_type.convert(Function_Params{t_except}, t_ss.conversions());
+              } catch (const exception::bad_boxed_cast &) {
+                accepted = false;
+              }
+            }
+
+            if (accepted) {
               t_ss.add_object(name, t_except);
 
               if (catch_block.children.size() == 2) {
